@@ -442,3 +442,49 @@ Proof.
   intros B. pose proof (derive_sha256_valid _ B) as V.
   repeat split; [apply of_bytes_to_bytes|apply of_text_to_text|apply of_component_to_component]; exact V.
 Qed.
+
+(* known-finding class 1 for a binary /p2p component, exactly: the protocol number in its 5-byte
+   form (+3), the length prefix in its 10-byte form (+9), the multihash header as in
+   of_bytes_noncanonical_length (+9, +18) — the sums of the oracle's `overlong` list *)
+Lemma of_component_noncanonical_length b p : of_component b = Some p -> to_component p <> b ->
+  exists e, (length b = length (to_component p) + e)%nat /\ In e [3; 9; 12; 18; 21; 27; 30]%nat.
+Proof.
+  intros H N. pose proof (of_component_valid _ _ H) as V.
+  assert (NL : length b <> (length (digest p) + 5)%nat).
+  { intros L. apply N. apply (of_component_canonical_iff _ _ H). exact L. }
+  revert H. unfold of_component.
+  destruct (bytes_ok b) eqn:B; [|discriminate].
+  destruct (decode_u32 b) as [[id r1]|] eqn:D1; [|discriminate].
+  destruct (id =? P2P) eqn:EI; [|discriminate]. apply N.eqb_eq in EI. subst id.
+  destruct (decode_u64 r1) as [[n r2]|] eqn:D2; [|discriminate].
+  destruct (len r2 =? n) eqn:EN; [|discriminate]. intros H.
+  destruct (decode_gen_prefix_len _ _ _ _ _ B D1 ltac:(change P2P with 421; lia)) as (pre1 & E1 & L1 & C1).
+  assert (Br1 : bytes_ok r1 = true).
+  { rewrite E1, bytes_ok_app in B. apply andb_prop in B. tauto. }
+  destruct (decode_u64_shape _ _ _ Br1 D2) as (pre2 & E2 & L2 & _ & C2).
+  destruct (of_bytes_header _ _ H) as (h & E3 & L3 & _).
+  destruct (valid_inv _ V) as (_ & _ & LD & _).
+  assert (P1 : (length pre1 = 2 \/ length pre1 = 5)%nat).
+  { destruct (Nat.le_gt_cases (length pre1) 4) as [Hl|Hl]; [|lia]. left.
+    rewrite C1.
+    - change P2P with 421. rewrite encode_421. reflexivity.
+    - pose proof (pow128_mono _ _ Hl) as M. pose proof pow128_4. lia. }
+  assert (Hn : n <= 84).
+  { unfold len in EN. rewrite E3, app_length in EN. unfold len in LD. lia. }
+  assert (P2 : (length pre2 = 1 \/ length pre2 = 10)%nat).
+  { destruct (Nat.le_gt_cases (length pre2) 9) as [Hl|Hl]; [|lia]. left.
+    rewrite (C2 Hl), encode_small by lia. reflexivity. }
+  rewrite (to_component_shape _ V), app_length. cbn [length].
+  rewrite E1, E2, E3, !app_length in NL |- *.
+  exists (length pre1 - 2 + (length pre2 - 1) + (length h - 2))%nat. split; [lia|].
+  cbn [In]. destruct P1 as [P1|P1], P2 as [P2|P2], L3 as [L3|[L3|L3]]; rewrite P1, P2, L3 in *; cbn; try lia; tauto.
+Qed.
+
+Lemma of_text_noncanonical_length t p : of_text t = Some p -> to_text p <> t ->
+  exists b, b58_decode t = Some b /\
+    (length b = length (to_bytes p) + 9 \/ length b = length (to_bytes p) + 18)%nat.
+Proof.
+  unfold of_text. destruct (b58_decode t) as [b|] eqn:D; [|discriminate]. intros H N.
+  exists b. split; [reflexivity|]. apply of_bytes_noncanonical_length; [exact H|].
+  intros E. apply N. unfold to_text. rewrite E. apply (b58_encode_decode _ _ D).
+Qed.
